@@ -149,7 +149,7 @@ func zzC05LowestMerge(Nr, Na int) {
 	if emptyA {
 		La = 0
 	}
-	s := zzLowestState("s", Nr, Lr, zzvChoose("staleCells", 2)*Nr)
+	s := zzLowestState("s", Nr, Lr, []int{0, Nr, 7}[zzvChoose("staleCells", 3)])
 	o := zzLowestState("o", Na, La, 0)
 	zzvAssume(zzInvLowest(s))
 	zzvAssume(zzInvLowest(o))
@@ -209,7 +209,7 @@ func zzC05HighestMerge(Nr, Na int) {
 	if emptyA {
 		La = 0
 	}
-	s := zzHighestState("s", Nr, Lr, zzvChoose("staleCells", 2)*Nr)
+	s := zzHighestState("s", Nr, Lr, []int{0, Nr, 7}[zzvChoose("staleCells", 3)])
 	o := zzHighestState("o", Na, La, 0)
 	zzvAssume(zzInvHighest(s))
 	zzvAssume(zzInvHighest(o))
